@@ -29,6 +29,7 @@ import io
 import json
 import logging
 import os
+import pathlib
 import re
 import tempfile
 import warnings
@@ -295,6 +296,8 @@ def gen_case(rng, tier, i):
     case["cq"] = [int(rng.random() < 0.4), [[int(rng.random() < pq) for _ in range(nv)] for _ in range(len(rows) + 1)]]
     case["cx"] = rand_csv_texts(rng)                               # arbitrary short texts for the CSV reader
     case["xx"] = rand_xml_tokens(rng, case_strings(case))          # foreign / malformed XML character data and attribute values
+    if rng.random() < 0.6:                                          # destination kind of Result.serialize, every kind with real weight
+        case["dest"] = rng.choice(DEST_KINDS[1:])
     return case
 
 
@@ -884,13 +887,30 @@ def rand_xml_tokens(rng, strings):
     return out
 
 
-def text_level(case, st=None, want_obs=True):
+def text_level(case, st=None, want_obs=True, viol=None):
     """(driver lines, observations of the implementation) for the text level.  Computed by one function for both sides:
     the driver lines quote rdflib's own document (as `json-of` does), the observations are what Python's reader /
     writer make of it (`want_obs=False`: `model_lines` needs only the driver lines; the readers are not run)."""
     lines, obs = [], []
     st = {} if st is None else st
     strings = case_strings(case)
+    dcase = {**case, "plugin": False, "enc": "utf-8"}
+
+    def doc_of(fmt, e="utf-8"):
+        """rdflib's document for the table, written to the case's destination kind (bytes as they end up there); it must
+        carry the same table as the document `serialize()` returns as bytes"""
+        data = _serialize(build_result(case, "direct"), fmt, dcase, e)
+        dest = case.get("dest", "bytes")
+        if want_obs and dest != "bytes" and e == "utf-8":
+            ref = build_result(case, "direct").serialize(format=fmt)
+            same = ref == data
+            st["destdoc_%s_%s" % (fmt, "identical" if same else "differs")] = 1
+            if not same:
+                a, b = parse_canon(ref, fmt, "bytes"), parse_canon(data, fmt, "bytes")
+                if a != b and viol is not None:
+                    viol.append(f"dest: the {fmt} document written to a {dest} destination reads back as {b[:80]!r}, "
+                                f"the one returned as bytes as {a[:80]!r}")
+        return data
 
     def ob(f):
         obs.append(f() if want_obs else "")
@@ -915,7 +935,7 @@ def text_level(case, st=None, want_obs=True):
         return rattrs, rtexts
 
     try:
-        doc = build_result(case, "direct").serialize(format="json").decode("utf-8")
+        doc = doc_of("json").decode("utf-8")
         toks = json_raw_tokens(doc)
         loaded = json_walk_strings(json.loads(doc))
     except Exception as e:  # noqa: BLE001
@@ -944,7 +964,7 @@ def text_level(case, st=None, want_obs=True):
         return lines, obs
     # ---- CSV text: rdflib's document read by the Lean reader; the Lean writer's document read by rdflib
     try:
-        cdoc = build_result(case, "direct").serialize(format="csv").decode("utf-8")
+        cdoc = doc_of("csv").decode("utf-8")
     except Exception as e:  # noqa: BLE001
         lines += ["const " + err_name(e)] * 2
         obs += [err_name(e)] * 2
@@ -974,7 +994,7 @@ def text_level(case, st=None, want_obs=True):
     # ---- XML text: the strings of rdflib's document as spelled, read by the Lean reader == as expat delivers them
     wattrs, wtexts = xml_doc_strings(case)
     try:
-        xdoc = build_result(case, "direct").serialize(format="xml")
+        xdoc = doc_of("xml")
         xdoc.decode("utf-8")
     except Exception as e:  # noqa: BLE001
         lines += ["const " + err_name(e)] * 4
@@ -989,7 +1009,7 @@ def text_level(case, st=None, want_obs=True):
         ob(lambda: parse_canon(xdoc, "xml", "bytes"))
     # ---- the same under `encoding="ascii"`: every character the encoding lacks is a decimal character reference
     try:
-        adoc = build_result(case, "direct").serialize(format="xml", encoding="ascii")
+        adoc = doc_of("xml", "ascii")
         adoc.decode("ascii")
     except Exception as e:  # noqa: BLE001
         lines += ["const " + err_name(e)] * 4
@@ -1038,6 +1058,8 @@ def _cmp_tables(tag, case, got_vars, got_rows, extra, viol):
 MIME = {"json": "application/sparql-results+json", "xml": "application/sparql-results+xml", "csv": "text/csv",
         "tsv": "text/tab-separated-values"}
 _TMPDIR = None
+TEXT_DESTS = ("textfile", "textfile-default", "stringio", "stringio-default")
+DEST_KINDS = ("bytes", "stream", "stringio", "stringio-default", "textfile", "textfile-default", "binfile", "path", "fileuri", "pathlib")
 
 
 def _tmp(name):
@@ -1059,23 +1081,37 @@ def _serialize(r, fmt, case, e):
         ser.serialize(b1, encoding="utf-8")
         ser.serialize(b2, encoding="utf-8")
         return b2.getvalue()
-    if dest == "textfile" and e != "utf-8":
-        dest = "binfile"
+    if dest in TEXT_DESTS and e != "utf-8":
+        dest = "binfile" if dest.startswith("textfile") else "stream"   # a text destination takes str: no other encoding to ask for
     if dest == "bytes":
         return r.serialize(format=name, **kw)
     if dest == "stream":
         buf = io.BytesIO()
         r.serialize(destination=buf, format=name, **kw)
         return buf.getvalue()
+    if dest in ("stringio", "stringio-default"):
+        # a text stream (`newline=""`: nothing translated; default `newline="\n"`: nothing translated on this platform either)
+        sbuf = io.StringIO(newline="") if dest == "stringio" else io.StringIO()
+        r.serialize(destination=sbuf, format=name, **kw)
+        return sbuf.getvalue().encode("utf-8")
     p = _tmp("out." + fmt)
     if os.path.exists(p):
         os.remove(p)
     if dest == "path":
         r.serialize(destination=p, format=name, **kw)
+    elif dest == "pathlib":
+        # outside the signature (`str | IO | None`): refused with AttributeError by `urlparse`; then the str of the path is used
+        try:
+            r.serialize(destination=pathlib.Path(p), format=name, **kw)
+        except AttributeError:
+            r.serialize(destination=str(pathlib.Path(p)), format=name, **kw)
     elif dest == "fileuri":
         r.serialize(destination="file://" + p, format=name, **kw)
     elif dest == "binfile":
         with open(p, "wb") as f:
+            r.serialize(destination=f, format=name, **kw)
+    elif dest == "textfile-default":
+        with open(p, "w", encoding="utf-8") as f:          # text mode with the platform's newline handling
             r.serialize(destination=f, format=name, **kw)
     else:
         with open(p, "w", encoding="utf-8", newline="") as f:
@@ -1388,7 +1424,7 @@ def run_impl(case):
             st["hist_pre_serialisation"] = int(bool(case.get("pre")))
     else:
         nontrivial = False
-    obs += text_level(case, st)[1]
+    obs += text_level(case, st, viol=viol)[1]
     return {"obs": obs, "viol": viol + xviol, "nontrivial": nontrivial,
             "key": json.dumps([case.get("vars"), case.get("rows"), case.get("tsv"), case.get("value")], sort_keys=True),
             "stats": st}
